@@ -473,6 +473,8 @@ ExactlyOnce == (Terminal /\ MustMapAll(sc)) =>
 ExactlyOnceAtReturn == (CallerReturned /\ MustMapAll(sc)) =>
                   /\ \A i \in 1..sc.n : mapped[i] = 1
                   /\ MustDeliverAll(sc) => recv = Written(sc)
+\* nobody ever sends on the closed output channel (holds with repair "outclose")
+NoSendOnClosed == pval[Red] # "RT"
 \* the call returns, and no goroutine of the call is blocked forever
 Returns  == Terminal => CallerReturned
 LeakFree == Terminal => AllDone
